@@ -368,6 +368,8 @@ def typed_mismatch(expect: dict, outcome: dict) -> str | None:
     (not a raw dict), an array of such as a list of dataclasses, date/date-time scalars not as raw strings."""
     sch = expect.get("schema") or {}
     t = outcome.get("type", "")
+    if expect.get("json") is None:
+        return None          # a null body of a nullable schema comes back as None: nothing to type
     if "$ref" in sch and expect.get("is_object"):
         if not t.startswith("dataclass:"):
             return f"object body returned as {t}, not as a model instance"
